@@ -263,6 +263,8 @@ def run(ctx):
         C07.slice_box_rules(ctx)
         # ... and which boxes are handed to slice_box (selection margin, task level coherence)
         C07.geometry_rules(ctx)
+        # ... and the names written in the 2D Header follow the requested order like the data (fields_in_slice)
+        C07.output_rules(ctx)
     finally:
         C07.P = old
     bylevel_rules(ctx)
